@@ -6,46 +6,46 @@ NOTE = ("trusted base: CPython executing the real function bodies; op models of 
         "Shapes/bin counts are enumerated up to the stated bound, values are unbounded.")
 CLAIMED = {
     "C01": ("proof", "contract-based deductive verification: symbolic execution of the real forward functions, returned log-det proved equal to the log of the term derivative of the returned output (z3 nlsat)",
-            "for every enumerated bin count, exp(logabsdet) = d out/d in > 0 is discharged for ALL input/parameter/box values from the real spline code; wrappers proved against the callee contract", "4-C01"),
+            "for every enumerated bin count, exp(logabsdet) = d out/d in > 0 is discharged for ALL input/parameter/box values from the real spline code; wrappers proved against the callee contract", "3 (row C01)"),
     "C02": ("proof", "contract-based deductive verification: inverse proved against the spec function of the forward map (root lemma), log-det of inverse proved to be the log-derivative of the inverse map, all partial operations proved defined",
-            "roundtrip and negated log-det as postconditions over the real code for all values; cubic inverse not under contract", "4-C02"),
+            "roundtrip and negated log-det as postconditions over the real code for all values; cubic inverse: one-real-root (Cardano) and quadratic-fallback branches proved, the trigonometric three-root branch enters as a listed assumption", "3 (row C02)"),
     "C09": ("proof", "contract-based deductive verification: knot lemma + per-bin monotonicity, end-points, range, continuity at knots and tail junction as postconditions (z3 nlsat)",
-            "all values of inputs, parameters, boxes and tail bounds; bin counts enumerated", "4-C09"),
+            "all values of inputs, parameters, boxes and tail bounds; bin counts enumerated", "3 (row C09)"),
     "C17": ("proof", "contract-based deductive verification: raises-iff contracts on the explored paths plus index-in-range / definedness obligations on every non-raising path",
-            "InputOutsideDomain is raised iff an input is outside the closed domain, and no other failure is reachable, for all values", "4-C17"),
+            "InputOutsideDomain is raised iff an input is outside the closed domain, and no other failure is reachable, for all values", "3 (row C17)"),
     "C07": ("proof", "contract-based deductive verification: real coupling classes executed on symbolic tensors with an uninterpreted per-item conditioner; identity features are the very input symbols, the conditioner's shown set, dependency sets and monotonicity are postconditions",
-            "for every enumerated mask and shape: all input values, all conditioner functions", "4-C07"),
+            "for every enumerated mask and shape: all input values, all conditioner functions", "3 (row C07)"),
     "C20": ("proof", "contract-based deductive verification: index specifications of the helpers as postconditions over symbolic tensors (syntactic symbol identity for data movement, z3 for arithmetic), frame condition `assigns nothing` from the write log",
-            "all tensor values for every enumerated shape; typecheck predicates by evaluation (bounded)", "4-C20"),
+            "all tensor values for every enumerated shape; typecheck predicates by evaluation (bounded)", "3 (row C20)"),
     "C06": ("proof", "contract-based deductive verification in a ghost may-dependency domain: the real MADE constructors and forward passes (both copies) run on (deps, live) elements with symbolic random-mask degrees; `output block i does not depend on inputs >= i` is a validity query per output unit (z3)",
-            "for every enumerated architecture: all weights, inputs, contexts and all random-mask draws", "4-C06"),
+            "for every enumerated architecture: all weights, inputs, contexts and all random-mask draws", "3 (row C06)"),
     "C08": ("proof", "contract-based deductive verification: wrappers executed with tagged uninterpreted stage maps; result terms compared with a reference composition / routing spec, log-dets as sums, inverse via the stage axioms",
-            "all values and all stage functions for every enumerated nesting / shape / split dimension", "4-C08"),
+            "all values and all stage functions for every enumerated nesting / shape / split dimension", "3 (row C08)"),
     "C10": ("proof", "contract-based deductive verification: class invariant of the weight cache proved preserved by every public method and every environment transition (real train/eval/use_cache/load_state_dict/_apply code) from every abstract pre-state; outputs proved equal to the uncached ones (z3)",
-            "histories of any length by induction; all parameter and input values; D = 2", "4-C10"),
-    "C11": ("proof", "contract-based deductive verification: accessor agreement (W V = I, exp(logabsdet) = |det W| by cofactors, forward = W x + b, inverse = V (y - b)) as polynomial postconditions over symbolic parameters; QR/SVD proved against the Householder contract; constructor grid as a bounded enumeration",
-            "all parameter values at D <= 2 (3 thorough) under the stated non-degeneracy preconditions; constructor configurations enumerated (bounded part, labelled)", "4-C11"),
+            "histories of any length by induction; all parameter and input values; D = 2; LULinear, QRLinear, SVDLinear (orthogonal factors through their contract), NaiveLinear, OneByOneConvolution", "3 (row C10)"),
+    "C11": ("proof", "contract-based deductive verification: accessor agreement (W V = I, exp(logabsdet) = |det W| by cofactors, forward = W x + b, inverse = V (y - b)) as polynomial postconditions over symbolic parameters (z3 nlsat; matrix identities by the sympy ring tactic with Groebner reduction modulo the orthogonality relations, z3 for the non-zero denominators); QR/SVD proved against the Householder contract; constructor grid as a bounded enumeration",
+            "all parameter values at D <= 2 (thorough: 3, Householder products up to (D,K) = (3,3) and (4,2)) under the stated non-degeneracy preconditions; constructor configurations enumerated (bounded part, labelled)", "3 (row C11)"),
     "C12": ("proof", "contract-based deductive verification: syntactic non-interference on the symbolic execution of the real code (row b of every result mentions only row-b symbols), postcondition of every class harness in evaluation mode",
-            "all values; batch size 2 (elementwise kernels for every batch size by leading-shape polymorphism)", "4-C12"),
+            "all values; batch size 2 (elementwise kernels for every batch size by leading-shape polymorphism)", "3 (row C12)"),
     "C13": ("proof", "contract-based deductive verification: frame conditions (`assigns`) from the write log of the symbolic execution, per base storage, for every class harness",
-            "all values and views; eval mode: no write to arguments, parameters or buffers", "4-C13"),
+            "all values and views; eval mode: no write to arguments, parameters or buffers", "3 (row C13)"),
     "C19": ("other", "contract-based deductive verification of the dtype contracts only (result dtype = input dtype, no dtype error on float64 and float32); numeric float32/float64 agreement is NOT decided by this family",
-            "partial: dtype clauses proved for the elementwise transform classes; closeness of float32 to float64 results is listed as not decided", "4-C19"),
+            "partial: dtype clauses proved for elementwise, coupling, autoregressive, linear-family, permutation, composite classes, flows and distributions; closeness of float32 to float64 results is not decidable by real-arithmetic contracts and is listed as not decided", "3 (row C19)"),
     "C14": ("proof", "contract-based deductive verification: each life-cycle method of ActNorm / BatchNorm executed from every symbolic state and proved equal to the transition of the documented reference model (z3); induction over calls gives all histories",
-            "histories of any length; all batch values under the stated precondition (>= 2 items, non-zero variance)", "4-C14"),
+            "histories of any length; all batch values under the stated precondition (>= 2 items, non-zero variance)", "3 (row C14)"),
     "C04": ("proof", "contract-based deductive verification: Flow.sample / sample_and_log_prob / log_prob executed with a row-wise uninterpreted bijection (C02 contract as axioms) and embedding; row pairing of noise, context row, sample and returned density proved (structural term check + z3)",
-            "all noise / context values, all transforms and embedding nets (uninterpreted); context rows and draws enumerated; the statistical clause is derived, not tested", "4-C04"),
+            "all noise / context values, all transforms and embedding nets (uninterpreted); context rows and draws enumerated; the statistical clause is derived, not tested", "3 (row C04)"),
     "C18": ("proof", "contract-based deductive verification of shape and raise contracts: every cell of the (num_samples, batch_size, context rows) grid is an executed path of the real code on symbolic tensors, result shapes from real torch meta inference, documented TypeError / ValueError as raises-iff",
-            "exact for all values at each grid cell; the integer grid is bounded", "4-C18"),
+            "exact for all values at each grid cell; the integer grid is bounded", "3 (row C18)"),
     "C05": ("proof", "contract-based deductive verification: returned log-densities proved equal, as terms, to the textbook closed forms (Gaussian family), exact summation to one (Bernoulli), normaliser compared through its erf arguments; sampling code proved to use the location/scale of its own context row and one fresh draw per sample",
-            "all values for the enumerated event shapes; MADE mixture, KDE evaluator and BoxUniform not under contract (listed)", "4-C05"),
+            "all values for the enumerated event shapes; the MADE mixture (log-density and ancestral sampler, against the C06 contract of its MADE) and the Gaussian KDE evaluator (exact-bandwidth sizes) are under contract; BoxUniform (torch.distributions) is not (listed)", "3 (row C05)"),
     "C03": ("proof", "contract-based deductive verification of the premises of the change-of-variables theorem: Flow._log_prob proved to be exactly base log-density of the transformed point plus log-abs-det (uninterpreted transform / embedding), plus re-discharged bijection / log-det / base-density contracts; the integral itself follows by the (trusted) theorem",
-            "structure clause for all transforms and contexts; premises for all values on one configuration each (full strength in C01/C02/C05/C09); quadrature is replaced by the theorem", "4-C03"),
+            "structure clause for all transforms and contexts; premises for all values on one configuration each (full strength in C01/C02/C05/C09); quadrature is replaced by the theorem", "3 (row C03)"),
     "C15": ("proof", "contract-based deductive verification: two instances built by the real constructors with distinct fresh symbols for every random draw; after the real load_state_dict the result terms of forward / inverse / log_prob (and of a continued training-mode forward) must be identical, for all draws, parameter values and inputs",
-            "all random draws and values for 18 class configurations and three histories before saving", "4-C15"),
+            "all random draws and values for 21 class configurations, saved after and before their data-dependent initialisation", "3 (row C15)"),
 }
-CLAIMED["C16"] = ("other", "contract-based deductive verification of gradient CONNECTIVITY only: ghost gradset through every op model; every leaf a result's value depends on is reachable through differentiable ops; correctness of autograd's numbers is assumed, not decided",
-                  "partial: connectivity for the elementwise transform classes in both directions; the finite-difference clause is not decided by this family", "5")
+CLAIMED["C16"] = ("other", "contract-based deductive verification of what separates the recorded autograd graph from the value: ghost gradset through every op model (every leaf a result's value depends on is reachable through differentiable ops) and gradient-cut aliases (no result depends on a leaf through a detach / no_grad cut); autograd's per-op derivative rules are assumed, not decided",
+                  "connectivity and no-cut clauses for elementwise, coupling, autoregressive, linear-family, permutation, composite classes, flows and distributions in evaluation mode and for BatchNorm / a flow with batch norm in training mode; the finite-difference comparison itself is only the native replay", "5")
 NA_REASONS = {
     "C16_unused": ("not claimed: 'gradients equal the true derivatives (finite differences)' is a statement about torch.autograd, which is external code assumed correct by this family; "
             "the only contract-decidable part (every result is graph-connected to every parameter its value depends on) was not built in the time available (DESIGN.md 4-C16)"),
